@@ -8,4 +8,10 @@ namespace Gobptree
 def goIdx {α : Type} (xs : List α) (i : Int) : Option α :=
   if i < 0 then none else xs[i.toNat]?
 
+/-- Go's `int` arithmetic on the supported (64-bit) targets: results wrap into `[-2^63, 2^63)`. -/
+def w64 (x : Int) : Int := (x + 9223372036854775808) % 18446744073709551616 - 9223372036854775808
+
+theorem w64_id (x : Int) (h1 : -9223372036854775808 ≤ x) (h2 : x < 9223372036854775808) : w64 x = x := by
+  unfold w64; omega
+
 end Gobptree
